@@ -279,11 +279,16 @@ def rule_immneg(ctx, R, arch):
     f = h.f
     neg = []
     for x in walk(f['body']):
-        if x['k'] == 'Un' and x['op'] == '-' and any(c.get('name') == 'getImm32' for c in calls(x['e'])):
-            w = domains.type_info(x.get('ty'))
-            neg.append((x, w))
+        if x['k'] == 'Un' and x['op'] == '-':
+            e = strip_all(x['e'])
+            while e['k'] == 'Cast':
+                e = strip_all(e['e'])
+            from_imm = any(c.get('name') == 'getImm32' for c in calls(x['e'])) or h.desc(e) == 'imm32'
+            if from_imm:
+                w = domains.type_info(x.get('ty'))
+                neg.append((x, w))
     bad = [x for x, w in neg if w is not None and w[0] == 32]
-    R.check(not bad, '%s h_ISUB_R src == dst immediate' % arch, loc(bad[0], f) if bad else '%s:%d' % (f['file'], f['line']), expected='subtract the sign-extended immediate (no 32-bit negation before sign extension)',
+    R.check(not bad, '%s ISUB_R src == dst immediate' % arch, loc(bad[0], f) if bad else '%s:%d' % (f['file'], f['line']), expected='subtract the sign-extended immediate (no 32-bit negation before sign extension)',
             found='32-bit negation %s: wrong result for imm32 = 0x80000000 (adds -2^31, the interpreter adds +2^31)' % show(bad[0]) if bad else 'no 32-bit negation')
 
 
